@@ -542,6 +542,34 @@ func (sw statusWrapper) SetStatus(rcpt string, err error) {
 	sw.sc.SetStatus(rcpt, sw.s.endp.wrapErr(sw.s.msgMeta.ID, !sw.s.opts.UTF8, "DATA", err))
 }
 
+// delayedStatuses keeps per-recipient statuses reported by the delivery until
+// the result of Commit is known: 'success' reported for a recipient means
+// nothing if the delivery is not committed afterwards.
+type delayedStatuses struct {
+	lock     sync.Mutex
+	rcpts    []string
+	statuses []error
+}
+
+func (ds *delayedStatuses) SetStatus(rcpt string, err error) {
+	ds.lock.Lock()
+	defer ds.lock.Unlock()
+	ds.rcpts = append(ds.rcpts, rcpt)
+	ds.statuses = append(ds.statuses, err)
+}
+
+func (ds *delayedStatuses) flush(to module.StatusCollector, commitErr error) {
+	ds.lock.Lock()
+	defer ds.lock.Unlock()
+	for i, rcpt := range ds.rcpts {
+		err := ds.statuses[i]
+		if err == nil {
+			err = commitErr
+		}
+		to.SetStatus(rcpt, err)
+	}
+}
+
 func (s *Session) LMTPData(r io.Reader, sc smtp.StatusCollector) error {
 	s.msgLock.Lock()
 	defer s.msgLock.Unlock()
@@ -585,12 +613,17 @@ func (s *Session) LMTPData(r io.Reader, sc smtp.StatusCollector) error {
 		return wrapErr(err)
 	}
 
-	s.delivery.(module.PartialDelivery).BodyNonAtomic(bodyCtx, statusWrapper{sc, s}, header, buf)
+	statuses := delayedStatuses{}
+	s.delivery.(module.PartialDelivery).BodyNonAtomic(bodyCtx, &statuses, header, buf)
 
 	// We can't really tell whether it is failed completely or succeeded
 	// so always commit. Should be harmless, anyway.
 	commitAttempted = true
-	if err := s.delivery.Commit(bodyCtx); err != nil {
+	err = s.delivery.Commit(bodyCtx)
+	// Report per-recipient results only now: if Commit fails, recipients
+	// the delivery reported success for are not delivered either.
+	statuses.flush(statusWrapper{sc, s}, err)
+	if err != nil {
 		return wrapErr(err)
 	}
 
